@@ -121,6 +121,8 @@ class Unit:
         self.rlimit = rlimit
         self.dropped = list(dropped)
         self.property_lemmas = {}    # lemma name -> description: lemmas that state the property over the contracts (a failure is a violation)
+        self.leaves = []             # [(FnSpec, 'unit that proves it')]: callees emitted as external_body declarations carrying the contract
+                                     # that another unit proves on their real text (signature taken from the real source on every run)
 
 
 def extract_fn(repo_dir, fs):
@@ -269,6 +271,18 @@ def annotate_fn(fs, text, negctl=False):
     return out, info
 
 
+def leaf_decl(fs, real, proved_in):
+    """The real signature of a callee with the contract another unit proves for it, body dropped (external_body)."""
+    import copy
+    g = copy.copy(fs)
+    g.loops, g.proofs, g.pre, g.decreases, g.twin = {}, [], None, None, None
+    txt, _ = annotate_fn(g, real, negctl=False)
+    src = Source('<leaf %s>' % fs.name, txt)
+    f = src.find_fn(fs.name)
+    head = re.sub(r'\s*// @vx:[^\n]*', '', txt[:f['open']])
+    return '// contract proved on the real text in unit %s\n#[verifier::external_body]\n%s{ unimplemented!() }' % (proved_in, head)
+
+
 def make_twin(fs, real):
     """The body of the real function (after the desugaring rules, without any spliced clause) emitted a second time as a
     spec function: its abstract view.  Exec helpers are renamed to their spec counterparts by fs.twin['subs']."""
@@ -318,6 +332,12 @@ def build_unit(unit, repo_dir, negctl=False):
         text = st['transform'](text)
         parts.append(text + '\n')
         meta['statics'].append(dict(name=st['name'], file=st['file'], line=s['line']))
+    meta['leaves'] = []
+    for fs, proved_in in unit.leaves:
+        real, line = extract_fn(repo_dir, fs)
+        decl = leaf_decl(fs, real, proved_in)
+        parts.append((unit.wrap[fs.impl] + ' {\n' if fs.impl is not None else '') + decl + ('\n}\n' if fs.impl is not None else '\n'))
+        meta['leaves'].append(dict(fn=fs.label, file=fs.file, line=line, proved_in=proved_in))
     cur_impl = None
     for fs in unit.fns:
         real, line = extract_fn(repo_dir, fs)
